@@ -103,112 +103,140 @@ func checkElementLoopsSkipNonActive(c *core.Ctx) {
 // (validator, interpreter lowering, interpreter signature table, compiler frontend).
 func checkPrefixSubOpcodeDecoding(c *core.Ctx) {
 	n := 0
+	prefixes := []struct{ prefix, sub, what string }{
+		{"OpcodeMiscPrefix", "OpcodeMisc", "misc (0xFC)"},
+		{"OpcodeVecPrefix", "OpcodeVec", "vector (0xFD)"},
+		{"OpcodeAtomicPrefix", "OpcodeAtomic", "atomic (0xFE)"},
+	}
 	for _, rel := range []string{"internal/wasm", "internal/engine/interpreter", "internal/engine/wazevo/frontend"} {
 		p := c.Pkg(rel)
 		if p == nil {
 			continue
 		}
 		info := p.TypesInfo
+		ord := map[string]int{}
 		core.AllFuncDecls(p, func(fd *ast.FuncDecl) {
 			ast.Inspect(fd.Body, func(x ast.Node) bool {
-				// arms for the misc prefix: `case OpcodeMiscPrefix:` clauses and `if op == OpcodeMiscPrefix` branches
-				var arm ast.Node
-				switch y := x.(type) {
-				case *ast.CaseClause:
-					for _, l := range y.List {
-						if constNameOf(info, l) == "OpcodeMiscPrefix" {
-							arm = y
+				for _, pf := range prefixes {
+					// arms for the prefix: `case OpcodeXPrefix:` clauses and `if op == OpcodeXPrefix` branches
+					var arm ast.Node
+					switch y := x.(type) {
+					case *ast.CaseClause:
+						for _, l := range y.List {
+							if constNameOf(info, l) == pf.prefix {
+								arm = y
+							}
 						}
-					}
-				case *ast.IfStmt:
-					if be, ok := ast.Unparen(y.Cond).(*ast.BinaryExpr); ok && be.Op == token.EQL {
-						if constNameOf(info, be.Y) == "OpcodeMiscPrefix" || constNameOf(info, be.X) == "OpcodeMiscPrefix" {
-							arm = y.Body
-						}
-					}
-				}
-				if arm == nil {
-					return true
-				}
-				// a nested switch dispatching on the sub-opcode
-				ast.Inspect(arm, func(z ast.Node) bool {
-					sw, ok := z.(*ast.SwitchStmt)
-					if !ok {
-						return true
-					}
-					dispatches := false
-					for _, cs := range sw.Body.List {
-						for _, l := range cs.(*ast.CaseClause).List {
-							if strings.HasPrefix(constNameOf(info, l), "OpcodeMisc") {
-								dispatches = true
+					case *ast.IfStmt:
+						if be, ok := ast.Unparen(y.Cond).(*ast.BinaryExpr); ok && be.Op == token.EQL {
+							if constNameOf(info, be.Y) == pf.prefix || constNameOf(info, be.X) == pf.prefix {
+								arm = y.Body
 							}
 						}
 					}
-					if !dispatches {
-						return true
+					if arm == nil {
+						continue
 					}
-					n++
-					// where does the switched value come from?
-					rawByte := false
-					check := func(e ast.Expr) {
-						ast.Inspect(e, func(w ast.Node) bool {
-							if ix, ok := w.(*ast.IndexExpr); ok {
-								if t := info.Types[ix.X].Type; t != nil {
-									if sl, ok := t.Underlying().(*types.Slice); ok && basicKind(sl.Elem()) == types.Uint8 {
-										rawByte = true
-									}
+					// the (outermost) nested switch dispatching on the sub-opcode
+					done := false
+					ast.Inspect(arm, func(z ast.Node) bool {
+						sw, ok := z.(*ast.SwitchStmt)
+						if !ok || done {
+							return !done
+						}
+						dispatches := false
+						for _, cs := range sw.Body.List {
+							for _, l := range cs.(*ast.CaseClause).List {
+								if k := constNameOf(info, l); strings.HasPrefix(k, pf.sub) && !strings.HasSuffix(k, "Prefix") {
+									dispatches = true
 								}
 							}
+						}
+						if !dispatches {
 							return true
-						})
-					}
-					if sw.Init != nil {
-						if as, ok := sw.Init.(*ast.AssignStmt); ok {
-							for _, r := range as.Rhs {
-								check(r)
-							}
 						}
-					}
-					if sw.Tag != nil {
-						check(sw.Tag)
-					}
-					leb := false
-					ast.Inspect(arm, func(w ast.Node) bool {
-						if call, ok := w.(*ast.CallExpr); ok && call.Pos() < sw.Body.Pos() {
-							if f := core.Callee(info, call); f != nil {
-								if f.Name() == "LoadUint32" {
-									leb = true
-								}
-								// a one-level helper of the package that decodes it
-								core.AllFuncDecls(p, func(g *ast.FuncDecl) {
-									if info.Defs[g.Name] != types.Object(f) || g == fd {
-										return
-									}
-									ast.Inspect(g.Body, func(v ast.Node) bool {
-										if c2, ok := v.(*ast.CallExpr); ok {
-											if f2 := core.Callee(info, c2); f2 != nil && f2.Name() == "LoadUint32" {
-												leb = true
+						done = true
+						n++
+						// where does the switched value come from? (a local is resolved to what it was bound to inside the arm)
+						rawByte := false
+						var check func(e ast.Expr, depth int)
+						check = func(e ast.Expr, depth int) {
+							if id, ok := ast.Unparen(e).(*ast.Ident); ok && depth < 2 {
+								if o := info.Uses[id]; o != nil {
+									ast.Inspect(arm, func(w ast.Node) bool {
+										if as, ok := w.(*ast.AssignStmt); ok && len(as.Lhs) == len(as.Rhs) && as.Pos() < sw.Pos() {
+											for i, l := range as.Lhs {
+												if lid, ok := l.(*ast.Ident); ok && (info.Defs[lid] == o || info.Uses[lid] == o) {
+													check(as.Rhs[i], depth+1)
+												}
 											}
 										}
 										return true
 									})
-								})
+								}
+								return
 							}
+							ast.Inspect(e, func(w ast.Node) bool {
+								if ix, ok := w.(*ast.IndexExpr); ok {
+									if t := info.Types[ix.X].Type; t != nil {
+										if sl, ok := t.Underlying().(*types.Slice); ok && basicKind(sl.Elem()) == types.Uint8 {
+											rawByte = true
+										}
+									}
+								}
+								return true
+							})
 						}
-						return true
+						if sw.Init != nil {
+							if as, ok := sw.Init.(*ast.AssignStmt); ok {
+								for _, r := range as.Rhs {
+									check(r, 0)
+								}
+							}
+						} else if sw.Tag != nil {
+							check(sw.Tag, 0)
+						}
+						leb := false
+						ast.Inspect(arm, func(w ast.Node) bool {
+							if call, ok := w.(*ast.CallExpr); ok && call.Pos() < sw.Body.Pos() {
+								if f := core.Callee(info, call); f != nil {
+									if f.Name() == "LoadUint32" {
+										leb = true
+									}
+									// a one-level helper of the package that decodes it
+									core.AllFuncDecls(p, func(g *ast.FuncDecl) {
+										if info.Defs[g.Name] != types.Object(f) || g == fd {
+											return
+										}
+										ast.Inspect(g.Body, func(v ast.Node) bool {
+											if c2, ok := v.(*ast.CallExpr); ok {
+												if f2 := core.Callee(info, c2); f2 != nil && f2.Name() == "LoadUint32" {
+													leb = true
+												}
+											}
+											return true
+										})
+									})
+								}
+							}
+							return true
+						})
+						ord[pf.prefix]++
+						// keyed by prefix, package and ordinal – not by the enclosing function
+						construct := fmt.Sprintf("%s sub-opcode dispatch #%d in %s decodes the sub-opcode as LEB128", pf.what, ord[pf.prefix], rel)
+						c.Check(!rawByte && leb, "R03.13", construct, sw.Pos(),
+							"the dispatched value comes from leb128.LoadUint32 ("+core.FuncName(p, fd)+")",
+							"in "+core.FuncName(p, fd)+" the sub-opcode is taken as the single byte after the prefix, although it is a LEB128 u32 that need not be in its shortest form: a validly padded encoding selects a different instruction (FD 8E 00 = i8x16.swizzle is executed as i16x8.add; unreachable) or is refused; the canonical two-byte forms of sub-opcodes ≥ 0x80 only work because the second byte happens to be a nop")
+						return false
 					})
-					c.Check(!rawByte && leb, "R03.13", "misc sub-opcode dispatch in "+core.FuncName(p, fd)+" decodes the sub-opcode as LEB128", sw.Pos(),
-						"the dispatched value comes from leb128.LoadUint32",
-						"the sub-opcode is taken as the single byte after the prefix: the other readers decode a LEB128 u32, so a valid non-minimal encoding (fc 80 00) is accepted by the validator and then rejected (or mis-dispatched) here")
-					return false
-				})
+				}
 				return true
 			})
 		})
 	}
-	c.Count("misc_subopcode_dispatches", n)
-	if n < 3 {
-		c.Undecided("R03.13", "misc sub-opcode dispatches", 0, fmt.Sprintf("only %d found (validator, interpreter lowering, interpreter signature and frontend expected)", n))
+	c.Count("prefix_subopcode_dispatches", n)
+	if n < 9 {
+		c.Undecided("R03.13", "prefix sub-opcode dispatches", 0, fmt.Sprintf("only %d found (validator, interpreter lowering, interpreter signature and frontend for each of the three prefixes expected)", n))
 	}
 }
 
